@@ -22,6 +22,7 @@ import os
 
 from .py2coq import Untranslatable, fail, strip_doc
 from .gen_shape import literal, coq_vcfg, coq_z, coq_bool, VECTOR_KW, defaults, get_fn, is_name, is_raise_bad
+from .gen_shape import parse_tetrahedron
 
 HEADER = """(* GENERATED on every run from /repo/magpylib/_src/obj_classes/class_*.py and fields/field_wrap_BH.py
    by translate/gen_tables.py -- do not edit *)
@@ -35,7 +36,10 @@ Open Scope string_scope.
 DATA_ATTRS = ["position", "orientation", "dimension", "diameter", "vertices", "faces", "polarization",
               "magnetization", "current", "moment", "pixel", "handedness", "field_func"]
 VALIDATORS = {"check_format_input_vector", "check_format_input_scalar", "check_format_input_vertices",
-              "check_format_input_cylinder_segment", "check_format_input_orientation", "validate_field_func"}
+              "check_format_input_cylinder_segment", "check_format_input_orientation", "validate_field_func",
+              "check_format_input_tetrahedron"}
+# filled by generate(): the vcfg term of check_format_input_tetrahedron (None: not defined), the rows that call it
+TETRA = {"cfg": None, "rows": []}
 SOURCE_BASES = ("BaseSource", "BaseMagnet", "BaseCurrent")
 SCALAR_KW = {"sig_name", "sig_type", "allow_None", "forbid_negative"}
 
@@ -85,6 +89,13 @@ def validator_term(call, vec_defaults, sc_defaults):
         if len(call.args) != 1 or call.keywords:
             fail(call, "vertices validator arguments")
         return "VVertices", None
+    if f == "check_format_input_tetrahedron":
+        # = check_format_input_vector(<literal configuration>) followed by the coplanarity guard: the row keeps the
+        # vector form, the guard is exported as `tetra_rejects_coplanar`
+        if len(call.args) != 1 or call.keywords or TETRA["cfg"] is None:
+            fail(call, "tetrahedron validator arguments")
+        TETRA["rows"].append(call)
+        return f"VVector {TETRA['cfg']}", None
     if f == "check_format_input_cylinder_segment":
         if len(call.args) != 1 or call.keywords:
             fail(call, "cylinder segment validator arguments")
@@ -243,6 +254,8 @@ def generate(repo):
     ic = ast.parse(open(os.path.join(repo, "magpylib/_src/input_checks.py")).read())
     vec_defaults = defaults(get_fn(ic, "check_format_input_vector"))
     sc_defaults = defaults(get_fn(ic, "check_format_input_scalar"))
+    TETRA["cfg"], TETRA["rows"] = parse_tetrahedron(ic, vec_defaults), []
+    tetra_setters, mesh_guard = [], [False]
     files = sorted(glob.glob(os.path.join(repo, "magpylib/_src/obj_classes/class_*.py")))
     if len(files) < 10:
         raise Untranslatable("class files not found")
@@ -265,12 +278,25 @@ def generate(repo):
                 if deco:
                     attr = fn.name
                     if attr in DATA_ATTRS:
+                        n0 = len(TETRA["rows"])
                         term, post = setter_row(cd.name, attr, fn, vec_defaults, sc_defaults)
                         setters.append((cd.name, attr, term, post))
+                        if len(TETRA["rows"]) > n0:
+                            tetra_setters.append((cd.name, attr))
                     elif calls:
                         fail(fn, f"validator call in the setter of an attribute outside the table: {attr}")
                 elif fn.name in ("_init_position_orientation", "_input_check"):
+                    if fn.name == "_input_check":
+                        # `if len(verts) == 0 or len(trias) == 0: raise MagpylibBadUserInput(..)` after both validators
+                        for q in fn.body:
+                            if isinstance(q, ast.If) and ast.unparse(q.test) == "len(verts) == 0 or len(trias) == 0":
+                                if cd.name != "TriangularMesh" or q.orelse or len(q.body) != 1 \
+                                        or not is_raise_bad(q.body[0]):
+                                    fail(q, "empty-mesh guard")
+                                mesh_guard[0] = True
                     for call in calls:
+                        if call.func.id == "check_format_input_tetrahedron":
+                            fail(call, "tetrahedron validator outside the Tetrahedron.vertices setter")
                         term, sig = validator_term(call, vec_defaults, sc_defaults)
                         if call.func.id == "check_format_input_orientation":
                             attr = "orientation"
@@ -322,6 +348,13 @@ def generate(repo):
             raise Untranslatable(f"registered class {c} has no _field_func_kwargs_ndim")
         rows.append(f"  ({cstr(c)}, {clist([f'({cstr(k)}, {coq_z(v)})' for k, v in nd])})")
     out.append("Definition registered : list (string * list (string * Z)) := [\n" + ";\n".join(rows) + "\n].\n")
+
+    if tetra_setters not in ([], [("Tetrahedron", "vertices")]):
+        raise Untranslatable(f"check_format_input_tetrahedron used by {tetra_setters}")
+    out.append("(* Tetrahedron.vertices goes through check_format_input_tetrahedron (vector check + coplanarity guard) *)\n"
+               f"Definition tetra_rejects_coplanar : bool := {coq_bool(bool(tetra_setters))}.\n")
+    out.append("(* TriangularMesh._input_check rejects empty vertices / faces with MagpylibBadUserInput *)\n"
+               f"Definition mesh_rejects_empty : bool := {coq_bool(mesh_guard[0])}.\n")
 
     # base rank table and default rank of the functional interface
     fw = ast.parse(open(os.path.join(repo, "magpylib/_src/fields/field_wrap_BH.py")).read())
